@@ -13,6 +13,7 @@ FAM_H = [
     lambda: Gamma("bigint", "int"),  # equal but not identical label objects
     lambda: Gamma("mixed", "int"),   # labels that cannot be ordered against each other
     lambda: Gamma("obj", "int"),     # labels hashable by identity only
+    lambda: Gamma("negint", "int"),  # hash(-1) == hash(-2)
 ]
 
 HG_KIT = core.register(core.Kit(
